@@ -130,6 +130,9 @@ const (
 type meth struct {
 	inherit bool // no own property: found along the prototype chain at each conversion
 	quiet   bool // a built-in method: not logged
+	getter  bool // the property is an accessor: each [[Get]] runs a getter that logs getTag and throws or yields the method
+	getThr  bool
+	setM    *methSet // while running, the method assigns / deletes another conversion method
 	present bool
 	setv    int // variable assigned by the method, -1 none
 	setp    prim
@@ -137,7 +140,18 @@ type meth struct {
 	p       prim
 }
 
+// a method replacing (or, with m.inherit, deleting) conversion method which of object id
+type methSet struct {
+	id, which int
+	m         meth
+}
+
 func (m meth) coq() string {
+	if m.getter {
+		in := m
+		in.getter = false
+		return fmt.Sprintf("(MGet %d %s %s)", 0, Cbool(m.getThr), in.coq()) // the tag is filled in by cgetter
+	}
 	if m.inherit {
 		return "MInherit"
 	}
@@ -158,6 +172,9 @@ func (m meth) coq() string {
 	if m.quiet {
 		return "(MQuiet " + r + ")"
 	}
+	if m.setM != nil {
+		return fmt.Sprintf("(MDoS %d %d %s %s)", m.setM.id, m.setM.which, m.setM.m.coq(), r)
+	}
 	return "(mdo " + sv + " " + r + ")"
 }
 
@@ -171,6 +188,14 @@ func (m meth) js(tag int) string {
 	fmt.Fprintf(&b, "function(){ log.push(%d); ", tag)
 	if m.setv >= 0 {
 		fmt.Fprintf(&b, "%s = %s; ", varNames[m.setv], m.setp.js())
+	}
+	if m.setM != nil {
+		prop := []string{"valueOf", "toString"}[m.setM.which]
+		if m.setM.m.inherit {
+			fmt.Fprintf(&b, "delete %s.%s; ", protoName(int64(m.setM.id)), prop)
+		} else {
+			fmt.Fprintf(&b, "%s.%s = %s; ", protoName(int64(m.setM.id)), prop, m.setM.m.js(m.setM.id*2+m.setM.which))
+		}
 	}
 	switch m.ret {
 	case retPrim:
@@ -220,7 +245,14 @@ func (v value) coq() string {
 	for i, k := range o.keys {
 		keys[i] = Cunits(k)
 	}
-	return fmt.Sprintf("(Ob %d %d %s %s %s %s %s)", o.id, o.cls, o.vo.coq(), o.ts.coq(), Clist(keys), Czlist(o.chain), Cz(o.fproto))
+	mc := func(m meth, which int) string {
+		c := m.coq()
+		if m.getter {
+			c = strings.Replace(c, "(MGet 0 ", fmt.Sprintf("(MGet %d ", 500+o.id*2+which), 1)
+		}
+		return c
+	}
+	return fmt.Sprintf("(Ob %d %d %s %s %s %s %s)", o.id, o.cls, mc(o.vo, 0), mc(o.ts, 1), Clist(keys), Czlist(o.chain), Cz(o.fproto))
 }
 
 func (v value) js() string {
@@ -269,12 +301,25 @@ func (o *obj) define() string {
 	if o.cls == 2 && o.fproto < 1000 {
 		fmt.Fprintf(&b, "o%d.prototype = %s; ", o.id, protoName(o.fproto))
 	}
-	if !o.vo.inherit {
-		fmt.Fprintf(&b, "o%d.valueOf = %s; ", o.id, o.vo.js(o.id*2))
+	defm := func(m meth, which int) {
+		prop := []string{"valueOf", "toString"}[which]
+		tag := o.id*2 + which
+		switch {
+		case m.inherit:
+		case m.getter:
+			in := m
+			in.getter = false
+			thr := ""
+			if m.getThr {
+				thr = fmt.Sprintf("throw %d; ", 300+tag)
+			}
+			fmt.Fprintf(&b, "Object.defineProperty(o%d, %q, {get: function(){ log.push(%d); %sreturn %s; }, configurable: true}); ", o.id, prop, 500+tag, thr, in.js(tag))
+		default:
+			fmt.Fprintf(&b, "o%d.%s = %s; ", o.id, prop, m.js(tag))
+		}
 	}
-	if !o.ts.inherit {
-		fmt.Fprintf(&b, "o%d.toString = %s; ", o.id, o.ts.js(o.id*2+1))
-	}
+	defm(o.vo, 0)
+	defm(o.ts, 1)
 	for _, k := range o.keys {
 		fmt.Fprintf(&b, "o%d[%s] = 1; ", o.id, jsStr(k))
 	}
@@ -1420,6 +1465,144 @@ func (g *gen) reprCase() ([3]value, *expr) {
 	return vs, e
 }
 
+// ---- [[DefaultValue]] (8.12.8) step by step ----
+
+// every operator that converts an object, by hint
+func (g *gen) consumers() []func(x *expr) *expr {
+	r := g.env.Rng
+	one := func() *expr { return lit(pv(Pick(r, []prim{pNum(1), pNum(1), pStr("1"), pStr("x")}))) }
+	return []func(x *expr) *expr{
+		func(x *expr) *expr { return bin(1, x, lit(num(1))) },
+		func(x *expr) *expr { return un(0, x) },
+		func(x *expr) *expr { return bin(15, x, one()) },
+		func(x *expr) *expr { return bin(17, lit(num(1)), x) },
+		func(x *expr) *expr { return un(7, x) },
+		func(x *expr) *expr { return bin(19, x, lit(g.object(false))) },
+		func(x *expr) *expr { return bin(0, x, one()) },
+		func(x *expr) *expr { return bin(0, lit(str("s")), x) },
+		func(x *expr) *expr { return bin(11, x, one()) },
+		func(x *expr) *expr { return bin(1, x, x) },
+		func(x *expr) *expr { return bin(6, x, lit(num(0))) },
+	}
+}
+
+func scriptedPrim(p prim) meth { return meth{present: true, setv: -1, ret: retPrim, p: p} }
+
+// accessor-defined valueOf / toString: the getters log, throw or yield nothing; 8.12.8 reads the second
+// method only after the first one was called and failed to give a primitive
+func (g *gen) getterCase(vi, ti, ci int) ([3]value, *expr) {
+	vs := [3]value{pv(pUndef()), pv(pUndef()), pv(pUndef())}
+	kinds := []meth{
+		{present: true, setv: -1, ret: retPrim, p: pNum(3), getter: true},
+		{present: true, setv: -1, ret: retObj, getter: true},
+		{present: false, setv: -1, getter: true},
+		{present: true, setv: -1, ret: retPrim, p: pStr("7")},
+		{present: true, setv: -1, ret: retPrim, p: pNum(4), getter: true, getThr: true},
+		{present: true, setv: -1, ret: retThrow, getter: true},
+	}
+	g.nextID++
+	o := &obj{id: g.nextID, base: "{}", chain: []int64{90}, fproto: -1, vo: kinds[vi%len(kinds)], ts: kinds[ti%len(kinds)]}
+	if o.ts.ret == retPrim && o.ts.p.kind == kNum && !o.ts.getThr {
+		o.ts.p = pStr("t")
+	}
+	g.objs = append(g.objs, o)
+	cs := g.consumers()
+	x := lit(value{o: o})
+	if ci%2 == 1 {
+		vs[0] = value{o: o}
+		x = evar(0)
+	}
+	return vs, cs[ci%len(cs)](x)
+}
+
+// a conversion method that replaces, deletes or disables the other one while it runs
+func (g *gen) selfModCase(first, action, retObjFirst, ci int) ([3]value, *expr) {
+	vs := [3]value{pv(pUndef()), pv(pUndef()), pv(pUndef())}
+	g.nextID++
+	o := &obj{id: g.nextID, base: "Object.create(o91)", chain: []int64{91, 90}, fproto: -1}
+	// the prototype holds plain scripted methods, so that a deleted own method uncovers them
+	g.p91.vo, g.p91.ts = scriptedPrim(pNum(91)), scriptedPrim(pStr("p91"))
+	second := 1 - first
+	var m2 meth
+	switch action % 4 {
+	case 0:
+		m2 = scriptedPrim(pNum(42))
+	case 1:
+		m2 = meth{inherit: true}
+	case 2:
+		m2 = meth{present: false, setv: -1}
+	default:
+		m2 = meth{present: true, setv: -1, ret: retObj}
+	}
+	fm := meth{present: true, setv: -1, ret: retPrim, p: pNum(5), setM: &methSet{id: o.id, which: second, m: m2}}
+	if retObjFirst == 1 {
+		fm.ret = retObj
+	}
+	sm := scriptedPrim(pStr("own"))
+	if first == 0 {
+		o.vo, o.ts = fm, sm
+	} else {
+		o.vo, o.ts = sm, fm
+	}
+	g.objs = append(g.objs, o)
+	cs := g.consumers()
+	return vs, cs[ci%len(cs)](lit(value{o: o}))
+}
+
+func (g *gen) pinnedDefaultValue() {
+	nc := len(g.consumers())
+	for vi := 0; vi < 6; vi++ {
+		for ti := 0; ti < 6; ti++ {
+			for k := 0; k < 4; k++ { // four of the consumers per pair, rotating so that all are used
+				ci := (vi*6+ti)*4 + k
+				vs, e := g.getterCase(vi, ti, ci%nc+nc*(ci%2))
+				g.runCase(vs, e, "defaultvalue-getter", true)
+			}
+		}
+	}
+	i := 0
+	for first := 0; first < 2; first++ {
+		for action := 0; action < 4; action++ {
+			for ro := 0; ro < 2; ro++ {
+				for k := 0; k < 5; k++ {
+					vs, e := g.selfModCase(first, action, ro, i)
+					i++
+					g.runCase(vs, e, "defaultvalue-selfmod", true)
+				}
+			}
+		}
+	}
+}
+
+// 9.3.1 StrWhiteSpaceChar: every white-space and line-terminator character, and the characters next to them
+// in the code charts or commonly mistaken for white space, at the front, at the end and inside a numeric string
+func (g *gen) pinnedWhitespace() {
+	chars := []uint16{0x08, 0x09, 0x0A, 0x0B, 0x0C, 0x0D, 0x0E, 0x1C, 0x1D, 0x1E, 0x1F, 0x20, 0x21, 0x7F, 0x80, 0x84, 0x85, 0x86, 0x9F, 0xA0, 0xA1, 0xAD,
+		0x167F, 0x1680, 0x1681, 0x180D, 0x180E, 0x180F, 0x1FFF, 0x2000, 0x2001, 0x2005, 0x200A, 0x200B, 0x200C, 0x200D, 0x200E, 0x2027, 0x2028, 0x2029, 0x202A, 0x202E, 0x202F, 0x2030,
+		0x205E, 0x205F, 0x2060, 0x2061, 0x2FFF, 0x3000, 0x3001, 0x303F, 0xFEFE, 0xFEFF, 0xFFA0, 0xFFFE, 0xFFFF}
+	u := [3]value{pv(pUndef()), pv(pUndef()), pv(pUndef())}
+	for i, c := range chars {
+		forms := [][]uint16{{c, '1', '2'}, {'1', '2', c}, {c, '1', '2', c}, {c}, {'1', c, '2'}, {c, c, '0', 'x', 'A', c}}
+		for j, f := range forms {
+			s := lit(pv(pUnits(f)))
+			var e *expr
+			switch (i + j) % 5 {
+			case 0:
+				e = un(0, s)
+			case 1:
+				e = un(6, s)
+			case 2:
+				e = bin(11, s, lit(num(12)))
+			case 3:
+				e = bin(2, s, lit(num(1)))
+			default:
+				e = bin(17, s, lit(num(12)))
+			}
+			g.runCase(u, e, "whitespace", true)
+		}
+	}
+}
+
 // References (8.7): which operators hand on a Reference and which apply GetValue.  Parentheses keep the Reference,
 // && || ?: and the comma operator return a value; typeof, delete and a call tell the difference
 // (unresolvable name, property removed or not, this = base object or global object).
@@ -1920,6 +2103,8 @@ func runC05(env *Env) {
 		g.objs = append(g.objs, inst, bf)
 		g.runCase([3]value{pv(pUndef()), pv(pUndef()), pv(pUndef())}, bin(20, lit(value{o: inst}), lit(value{o: bf})), "pinned", true)
 	}
+	g.pinnedDefaultValue()
+	g.pinnedWhitespace()
 	g.intRepr(9007199254740993, 0)
 	g.intRepr(60032052788413712, 1)
 	{ // repaired (07b2f1f): typeof (1 ? nope : 0) throws, (1 ? o.f : 0)() runs with the global object as this
@@ -1971,6 +2156,20 @@ func runC05(env *Env) {
 				}
 				g.runCase(vs, bin(op, a, b), "core-binary", true)
 			}
+			continue
+		}
+		if r.Intn(40) == 0 {
+			var vs [3]value
+			var e *expr
+			if r.Intn(2) == 0 {
+				vs, e = g.getterCase(r.Intn(6), r.Intn(6), r.Intn(22))
+			} else {
+				vs, e = g.selfModCase(r.Intn(2), r.Intn(4), r.Intn(2), r.Intn(11))
+			}
+			if r.Intn(3) == 0 { // twice in a row: the second conversion starts from what the first one left behind
+				e = bin(23, asg(1, e), e)
+			}
+			g.runCase(vs, e, "defaultvalue", true)
 			continue
 		}
 		if r.Intn(14) == 0 {
